@@ -1322,6 +1322,7 @@ func (a *Allocator) CreatePool(createInfo PoolCreateInfo) (*Pool, common.VkResul
 
 		return nil, core1_0.VKErrorUnknown, err
 	}
+	a.nextPoolId++
 	pool.next = a.pools
 
 	if a.pools != nil {
